@@ -197,6 +197,25 @@ func (r *checkRun) run() int {
 		timeout = 60
 	}
 	runObligations(r.obls, timeout, 16)
+	// an obligation that ran out of time is tried again with little contention and a more generous limit
+	// before it is reported: on a loaded machine 16 x 3 concurrent solver processes starve one another, and a
+	// timeout must not be mistaken for a refutation (DESIGN section 14)
+	var again []*Obligation
+	for _, o := range r.obls {
+		if o.Kind == "cover" || o.ExpectFail || o.Result == nil {
+			continue
+		}
+		if o.Result.Status == "timeout" || o.Result.Status == "unknown" {
+			again = append(again, o)
+		}
+	}
+	if len(again) > 0 && len(again) <= 24 {
+		for _, o := range again {
+			o.Result = nil
+		}
+		runObligations(again, 3*timeout, 3)
+		r.notes[fmt.Sprintf("%d obligation(s) exceeded the first time limit and were re-run with less parallelism and three times the limit", len(again))] = true
+	}
 	if r.tier == "thorough" {
 		r.crossCheck(timeout)
 	}
